@@ -321,6 +321,115 @@ def ob_zoom_entry_stat(ctx, res):
     res.ok(m, "to_entry_array_zoom: NaN->0 only for the mean; min/max fold the record's min_val/max_val into the NaN-seeded slot")
 
 
+def _final_pass_eval(ctx, fn, vname, after):
+    """a whole-array pass after the fill loop (`v.mapv_inplace(|x| ..)`, `v.iter_mut().for_each(|x| ..)`, `v.map_inplace(|x| ..)`) evaluated per element:
+    None (no such pass) | ("ok",) | ("bad", node, text) | ("unknown", node, reason)"""
+    from ..rules.interp import Interp, NotPure, _Return
+    cands = []
+    for x in walk_no_nested_fn(fn.body):
+        if x.k == "mcall" and x.order > after.order and len(x["args"]) == 1 and strip(x["args"][0]).k == "closure":
+            r = up(strip(x["recv"]))
+            if (x["method"] in ("mapv_inplace", "map_inplace") and r == vname) or (x["method"] == "for_each" and r in ("%s.iter_mut()" % vname,)):
+                cands.append(x)
+    if len(cands) != 1:
+        return None
+    c = cands[0]
+    cl = strip(c["args"][0])
+    if len(cl["inputs"]) != 1:
+        return ("unknown", c, "closure parameters")
+    pn = up(cl["inputs"][0]).replace("&mut ", "").replace("mut ", "").replace("&", "").split(":")[0].strip()
+    if not re.fullmatch(r"[a-z_]\w*", pn):
+        return ("unknown", c, "closure parameter `%s`" % pn)
+    nan = float("nan")
+
+    def method(m, recv, args):
+        if m == "is_nan" and isinstance(recv, float) and not args:
+            return recv != recv
+        if m == "is_finite" and isinstance(recv, float) and not args:
+            return recv == recv and abs(recv) != float("inf")
+        raise NotPure("method " + m)
+    out = []
+    for x in (nan, 1.5, 0.0, -2.0):
+        it = Interp(ctx.ast, PY, extern={"None": None, "method": method, "floats": True})
+        env = {pn: x, "missing": "MISSING"}
+        try:
+            b = cl["body"]
+            v = it.block(b, env, 0) if b.k == "block" else it.ev(b, env, 0)
+        except (NotPure, _Return) as e:
+            return ("unknown", c, str(e)[:60])
+        except Exception as e:
+            return ("unknown", c, str(e)[:60])
+        got = v if c["method"] == "mapv_inplace" else env[pn]
+        want = "MISSING" if x != x else x
+        if got != want and not (got != got and want != want):
+            out.append("%s to %s" % ("NaN" if x != x else x, got))
+    if out:
+        return ("bad", c, ", ".join(out))
+    return ("ok",)
+
+
+def _oob_eval(ctx, fn, bound):
+    """fill_out_of_bounds run by the general interpreter on an index-recording array: None (not evaluable) | ("ok", n) | ("bad", role, message)"""
+    from ..rules.interp import Interp, NotPure, _Return
+    n = 0
+    for length in range(1, 7):
+        for start in range(-4, length + 4):
+            for end in range(start + 1, length + 5):
+                ln = end - start
+                for bins in range(1, ln + 1):
+                    arr = {"__arr": {}, "__ref": True}
+                    box = []
+
+                    def method(m, recv, args, bins=bins, box=box):
+                        if recv is not None and isinstance(recv, dict) and "__arr" in recv and m in ("len", "dim") and not args:
+                            return bins
+                        if isinstance(recv, dict) and "__arr" in recv and m in ("view_mut", "as_array_mut", "reborrow") and not args:
+                            return recv
+                        if isinstance(recv, tuple) and len(recv) == 3 and recv[0] == "range" and m == "for_each" and len(args) == 1:
+                            for k_ in range(recv[1], recv[2]):
+                                box[0].apply_closure(args[0], [k_])
+                            return None
+                        if isinstance(recv, tuple) and len(recv) == 3 and recv[0] == "range" and m in ("rev",) and not args:
+                            return recv
+                        raise NotPure("method " + m)
+
+                    def binop(op, a, b):
+                        if isinstance(a, int) and isinstance(b, int) and not isinstance(a, bool) and not isinstance(b, bool):
+                            if op == "+":
+                                return a + b
+                            if op == "-":
+                                return a - b
+                            if op == "*":
+                                return a * b
+                            if op == "/":
+                                if b == 0:
+                                    raise NotPure("division by zero")
+                                q = abs(a) // abs(b)
+                                return q if (a >= 0) == (b >= 0) else -q
+                        raise NotPure("arithmetic")
+                    it = Interp(ctx.ast, PY, extern={"None": None, "method": method, "binop": binop})
+                    box.append(it)
+                    try:
+                        it.call(fn, [start, end, length, "OOB", arr])
+                    except (NotPure, _Return):
+                        return None
+                    except Exception:
+                        return None
+                    wr = arr["__arr"]
+                    for k_, v_ in wr.items():
+                        if not (isinstance(k_, int) and 0 <= k_ < bins):
+                            return ("bad", "oobFill/index", "writes array[%s] with %d bins (start=%d end=%d length=%d): out of bounds" % (k_, bins, start, end, length))
+                        if v_ != "OOB":
+                            return ("bad", "oobFill/value", "writes `%s` instead of the oob value (start=%d end=%d length=%d bins=%d)" % (v_, start, end, length, bins))
+                    bs = [bound(ln, bins, k_) for k_ in range(bins + 1)]
+                    want = set(k_ for k_ in range(bins) if any(start + p_ < 0 or start + p_ >= length for p_ in range(bs[k_], bs[k_ + 1])))
+                    n += 1
+                    if set(wr) != want:
+                        return ("bad", "oobFill/bins", "start=%d end=%d length=%d bins=%d: bins filled with oob %s, bins holding a base outside the chromosome %s"
+                                % (start, end, length, bins, sorted(wr), sorted(want)))
+    return ("ok", n)
+
+
 def ob_oob_fill(ctx, res):
     """C20-O1: fill_out_of_bounds decided by evaluating its index expressions for all small (start, end, length, bins)"""
     fn = ctx.ast.fn(PY, "fill_out_of_bounds", required=False)
@@ -339,6 +448,14 @@ def ob_oob_fill(ctx, res):
         res.fail("oobFill/signature", fn, "unexpected signature %s (expected start, end, length: i32, oob: f64, array)" % fn.params)
         return
     P_START, P_END, P_LEN, P_OOB, P_ARR = names
+    ev = _oob_eval(ctx, fn, bound)
+    if ev is not None:
+        if ev[0] == "bad":
+            res.fail(ev[1], fn, ev[2])
+        else:
+            res.ok(fn, "fill_out_of_bounds run for %d combinations of (start, end, chromosome length, bins): exactly the bins holding a base outside [0, length) are set to oob; "
+                       "every index inside the array" % ev[1])
+        return
     stmts = fn.body["stmts"]
     # recognised shape: lets (pure ints), an early return on an empty range/array, then `if cond { [lets] for i in A..B / A..=B { array[i] = oob; } }` blocks
     pre_lets, ifs, early = [], [], None
@@ -723,7 +840,15 @@ def ob_per_base(ctx, res):
         # NaN -> missing at the end
         fin = [x for x in walk_no_nested_fn(fn.body) if x.k == "for" and up(strip(x["iter"])) in ("%s.iter_mut()" % vname, "&mut %s" % vname) and x.order > lp[0].order]
         if len(fin) != 1:
-            res.fail("perBase/%s/missing" % name, fn, "NaN (no data) must be replaced by `missing` in a final pass over the array")
+            fv = _final_pass_eval(ctx, fn, vname, lp[0])
+            if fv is None:
+                res.fail("perBase/%s/missing" % name, fn, "NaN (no data) must be replaced by `missing` in a final pass over the array")
+            elif fv[0] == "bad":
+                res.fail("perBase/%s/missing" % name, fv[1], "NaN (no data) must be replaced by `missing` at the end and every other value kept; the final pass maps %s" % fv[2])
+            elif fv[0] == "unknown":
+                res.undecided("perBase/%s/missing" % name, fv[1], "final pass over the array not evaluable (%s)" % fv[2])
+            else:
+                res.ok(fn, "%s: NaN-seeded; covered base <- %s (summed on overlap)%s; uncovered -> missing (final pass evaluated)" % (name, addtxt, "" if raw else ", item clamped to the range"))
             continue
         vn = up(fin[0]["pat"])
         bt = upn(fn, fin[0]["body"])
